@@ -100,6 +100,7 @@ struct Board {
 };
 
 struct ClassDump {
+    int id;                   // distinguishes the classes in the memo keys
     std::string name;
     std::vector<char> man;    // letters in class order, lower case for black
     int k;
@@ -113,7 +114,7 @@ static std::string dumpDir;
 static const ClassDump* getDump(const std::string& cls) {
     auto it = dumps.find(cls);
     if (it != dumps.end()) return it->second.data ? &it->second : nullptr;
-    ClassDump d; d.name = cls; d.data = nullptr;
+    ClassDump d; d.name = cls; d.data = nullptr; d.id = (int)dumps.size() + 1;
     bool white = true;
     for (size_t i = 0; i < cls.size(); i++) {
         if (i > 0 && cls[i] == 'K') white = false;
@@ -306,7 +307,7 @@ static char wdl(const ClassDump& d, const Board& b) {
     if (b.hmc >= 100) return 'D';
     if (v.t == 'D') return 'D';
     if (v.k + b.hmc <= 100) return v.t;
-    unsigned long long key = (unsigned long long)indexOf(d, b) * 128ULL + (unsigned)b.hmc;
+    unsigned long long key = ((unsigned long long)d.id << 40) | ((unsigned long long)indexOf(d, b) * 128ULL + (unsigned)b.hmc);
     auto it = memoWdl.find(key);
     if (it != memoWdl.end()) return it->second;
     if (--budget < 0) return '?';
@@ -355,7 +356,7 @@ static char within(const ClassDump& d, const Board& b, int n) {
     if (v.k > n) return '0';      // with the rule neither a win nor a loss gets shorter (the rule only
                                   // removes lines of the winning side and adds draws)
     if (v.k + b.hmc <= 100) return v.k <= n ? '1' : '0';
-    unsigned long long key = (unsigned long long)indexOf(d, b) * 128ULL + (unsigned)b.hmc;
+    unsigned long long key = ((unsigned long long)d.id << 40) | ((unsigned long long)indexOf(d, b) * 128ULL + (unsigned)b.hmc);
     auto it = memoIn.find(key);
     if (it != memoIn.end()) return it->second;
     if (--budget < 0) return '?';
